@@ -64,7 +64,8 @@ theorem Sound.adv {s s' : St} (h : Sound s) (a : Adv s s') : Sound s' where
 /-- The common case: configuration and disk untouched, bitfield kept or dropped, resume bitfield kept
 or overwritten with the bitfield. -/
 theorem Adv.of_eq {s s' : St} (hc : s'.cfg = s.cfg) (hb : s'.bad = s.bad)
-    (hbf : s'.bf = s.bf ∨ s'.bf = none) (hp : s'.persisted = s.persisted ∨ s'.persisted = s.bf) : Adv s s' where
+    (hbf : s'.bf = s.bf ∨ s'.bf = none)
+    (hp : s'.persisted = s.persisted ∨ s'.persisted = s.bf ∨ s'.persisted = none) : Adv s s' where
   cfg := hc
   bad := fun x hx => hb ▸ hx
   bf := fun i hi => by
@@ -72,9 +73,10 @@ theorem Adv.of_eq {s s' : St} (hc : s'.cfg = s.cfg) (hb : s'.bad = s.bad)
     · exact Or.inl (h ▸ hi)
     · rw [h] at hi; cases hi
   per := fun i hi => by
-    rcases hp with h | h
+    rcases hp with h | h | h
     · exact Or.inl (h ▸ hi)
     · exact Or.inr (Or.inl (h ▸ hi))
+    · rw [h] at hi; cases hi
 
 theorem Adv.frame {s s' : St} (hc : s'.cfg = s.cfg) (hb : s'.bad = s.bad)
     (hbf : s'.bf = s.bf) (hp : s'.persisted = s.persisted) : Adv s s' :=
@@ -83,32 +85,77 @@ theorem Adv.frame {s s' : St} (hc : s'.cfg = s.cfg) (hb : s'.bad = s.bad)
 /-! ### stop, writeBitfield -/
 
 theorem writeBitfield_persisted (s : St) :
-    s.writeBitfield.persisted = s.persisted ∨ s.writeBitfield.persisted = s.bf := by
+    s.writeBitfield.persisted = s.persisted ∨ s.writeBitfield.persisted = s.bf ∨ s.writeBitfield.persisted = none := by
   unfold St.writeBitfield
   split
-  · next b hb => right; simp [hb]
+  · next b hb => right; left; simp [hb]
   · left; simp
 
-theorem stop_persisted (s : St) (e : Bool) :
-    (s.stop e).persisted = s.persisted ∨ (s.stop e).persisted = s.bf := by
+theorem stopAlloc_bf (s : St) : (stopAlloc s).bf = s.bf ∨ (stopAlloc s).bf = none := by
+  unfold stopAlloc
+  split
+  · dsimp only
+    split
+    · left; rfl
+    · dsimp only
+      split
+      · right; rfl
+      · left; rfl
+  · left; rfl
+
+theorem stopAlloc_persisted (s : St) : (stopAlloc s).persisted = s.persisted ∨ (stopAlloc s).persisted = none := by
+  unfold stopAlloc
+  split
+  · dsimp only
+    split
+    · left; rfl
+    · dsimp only
+      split
+      · right; rfl
+      · left; rfl
+  · left; rfl
+
+theorem stop_bf (s : St) (e : Bool) : (s.stop e).bf = s.bf ∨ (s.stop e).bf = none := by
   rw [stop_eq]
   split
   · left; rfl
-  · simp only [stopRun, stopFin_persisted, stopVer_persisted, stopAlloc_persisted, closeData_persisted]
-    unfold stopWB
-    split
-    · have := writeBitfield_persisted (stopClear (stopPeers (stopA s e)))
-      simpa using this
-    · left; simp
+  · simp only [stopRun, stopFin_bf, stopVer_bf]
+    have := stopAlloc_bf (stopWB (stopClear (stopPeers (stopA s e)))).closeData
+    simpa using this
+
+theorem stop_persisted (s : St) (e : Bool) :
+    (s.stop e).persisted = s.persisted ∨ (s.stop e).persisted = s.bf ∨ (s.stop e).persisted = none := by
+  rw [stop_eq]
+  split
+  · left; rfl
+  · simp only [stopRun, stopFin_persisted, stopVer_persisted]
+    rcases stopAlloc_persisted (stopWB (stopClear (stopPeers (stopA s e)))).closeData with h | h
+    · rw [h]
+      simp only [closeData_persisted]
+      unfold stopWB
+      split
+      · have := writeBitfield_persisted (stopClear (stopPeers (stopA s e)))
+        simpa using this
+      · left; simp
+    · right; right; exact h
 
 theorem stop_persisted' (s : St) (e : Bool) {p b : Option (List Bool)} (hp : s.persisted = p) (hb : s.bf = b) :
-    (s.stop e).persisted = p ∨ (s.stop e).persisted = b := hp ▸ hb ▸ stop_persisted s e
+    (s.stop e).persisted = p ∨ (s.stop e).persisted = b ∨ (s.stop e).persisted = none :=
+  hp ▸ hb ▸ stop_persisted s e
+
+theorem stop_bf' (s : St) (e : Bool) {b : Option (List Bool)} (hb : s.bf = b) :
+    (s.stop e).bf = b ∨ (s.stop e).bf = none := hb ▸ stop_bf s e
 
 theorem writeBitfield_adv (s : St) : Adv s s.writeBitfield :=
   Adv.of_eq (by simp) (by simp) (Or.inl (by simp)) (writeBitfield_persisted s)
 
 theorem stop_adv (s : St) (e : Bool) : Adv s (s.stop e) :=
-  Adv.of_eq (by simp) (by simp) (Or.inl (by simp)) (stop_persisted s e)
+  Adv.of_eq (by simp) (by simp) (stop_bf s e) (stop_persisted s e)
+
+/-- `stop` applied to a state that agrees with `a` on the four relevant fields. -/
+theorem stop_adv' (a s : St) (e : Bool) (hc : s.cfg = a.cfg) (hb : s.bad = a.bad) (hbf : s.bf = a.bf)
+    (hp : s.persisted = a.persisted) : Adv a (s.stop e) :=
+  Adv.of_eq (by simp [hc]) (by simp [hb]) (stop_bf' s e hbf) (stop_persisted' s e hp hbf)
 
 /-- Closes `Adv a b` when `b` agrees with `a` on cfg, bad, bf, persisted (by the frame simp lemmas). -/
 macro "adv_frame" : tactic => `(tactic| exact Adv.frame (by simp) (by simp) (by simp) (by simp))
@@ -133,19 +180,15 @@ theorem hadReady_adv (m : M) : Adv m.1 (hadReady m).1 := by adv_frame
 theorem reconcile_adv (s : St) (impl : List ImplDl) : Adv s (reconcile s impl).1 := by adv_frame
 theorem reconcileIdl_adv (s : St) (impl : List Nat) : Adv s (reconcileIdl s impl).1 := by adv_frame
 
-theorem handleMetadataData_persisted (m : M) (k i len : Nat) (g : Bool) :
-    (handleMetadataData m k i len g).1.persisted = m.1.persisted ∨
-      (handleMetadataData m k i len g).1.persisted = m.1.bf := by
+theorem handleMetadataData_adv (m : M) (k i len : Nat) (g : Bool) :
+    Adv m.1 (handleMetadataData m k i len g).1 := by
   unfold handleMetadataData
   dsimp only
   repeat' split
   all_goals first
-    | (left; simp; done)
-    | (simp only [onSt_fst]; exact stop_persisted' _ _ rfl rfl)
-
-theorem handleMetadataData_adv (m : M) (k i len : Nat) (g : Bool) :
-    Adv m.1 (handleMetadataData m k i len g).1 :=
-  Adv.of_eq (by simp) (by simp) (Or.inl (by simp)) (handleMetadataData_persisted ..)
+    | exact Adv.refl _
+    | (simp only [onSt_fst]; exact stop_adv' _ _ _ rfl rfl rfl rfl)
+    | exact Adv.frame (by simp) (by simp) (by simp) (by simp)
 
 /-! ### Commands -/
 
@@ -165,7 +208,7 @@ theorem handleVerifyCommand_adv (m : M) : Adv m.1 (handleVerifyCommand m).1 := b
   split
   · exact Adv.of_eq (by simp) (by simp) (Or.inr (by simp)) (Or.inl (by simp))
   · simp only [onSt_fst]
-    exact Adv.of_eq (by simp) (by simp) (Or.inl (by simp)) (stop_persisted' _ _ rfl rfl)
+    exact stop_adv' _ _ _ rfl rfl rfl rfl
 
 /-! ### Allocation -/
 
@@ -189,7 +232,7 @@ theorem hadCheck_adv (m : M) : Adv m.1 (hadCheck m).1 := by
   dsimp only
   split
   · simp only [onSt_fst]
-    exact Adv.of_eq (by simp) (by simp) (Or.inl (by simp)) (stop_persisted' _ _ (by simp) (by simp))
+    exact stop_adv' _ _ _ (by simp) (by simp) (by simp) (by simp)
   · exact (checkCompletion_adv m.1).trans (hadReady_adv (m.1.checkCompletion.1, m.2))
 
 theorem Sound.freshBf {s : St} (h : Sound s) : Sound { s with bf := some (List.replicate s.n false) } :=
@@ -213,10 +256,17 @@ theorem hadTrust_sound (m : M) (b : List Bool) (h : Sound m.1) : Sound (hadTrust
 
 theorem hadInstall_adv (m : M) : Adv m.1 (hadInstall m).1 := by adv_frame
 
+theorem hadForget_adv (m : M) (mi : Bool) : Adv m.1 (hadForget m mi).1 := by
+  unfold hadForget
+  simp only [onSt_fst]
+  split
+  · exact Adv.of_eq rfl rfl (Or.inr rfl) (Or.inr (Or.inr rfl))
+  · exact Adv.refl _
+
 theorem handleAllocationDone_sound (m : M) (ex mi : Bool) (h : Sound m.1) :
     Sound (handleAllocationDone m ex mi).1 := by
   rw [handleAllocationDone_eq]
-  have h0 := h.adv (hadInstall_adv m)
+  have h0 := (h.adv (hadInstall_adv m)).adv (hadForget_adv _ mi)
   dsimp only
   repeat' split
   all_goals first
@@ -229,7 +279,7 @@ theorem allocatorRun_sound (m : M) (h : Sound m.1) : Sound (allocatorRun m).1 :=
   dsimp only
   split
   · simp only [onSt_fst]
-    exact h.adv (Adv.of_eq (by simp) (by simp) (Or.inl (by simp)) (stop_persisted' _ _ rfl rfl))
+    exact h.adv (stop_adv' _ _ _ rfl rfl rfl rfl)
   · exact handleAllocationDone_sound _ _ _ (h.adv (Adv.frame rfl rfl rfl rfl))
 
 /-! ### Verification -/
@@ -255,7 +305,7 @@ theorem handleVerificationDone_adv (m : M) : Adv m.1 (handleVerificationDone m).
   split
   · simp only [onSt_fst]
     refine (hvdInstall_adv m).trans ?_
-    exact Adv.of_eq (by simp) (by simp) (Or.inl (by simp)) (stop_persisted' _ _ rfl rfl)
+    exact stop_adv' _ _ _ rfl rfl rfl rfl
   · exact ((hvdInstall_adv m).trans (hvdHaves_adv _)).trans (hadCheck_adv _)
 
 /-! ### Piece writes -/
@@ -299,7 +349,7 @@ theorem handlePieceWriteDone_adv (m : M) (w : WriteJob) (e : Bool)
   · next hg =>
     split
     · simp only [onSt_fst]
-      exact Adv.of_eq (by simp) (by simp) (Or.inl (by simp)) (stop_persisted' _ _ rfl rfl)
+      exact stop_adv' _ _ _ rfl rfl rfl rfl
     · next he =>
       have hok' := hok (by simpa using hg) (by simpa using he)
       split
@@ -376,12 +426,12 @@ theorem handle_adv (s : St) (p : Parked) (kn : Nat → Bool) (op : Op) (hop : op
     | exact handlePeerSnubbed_adv (s, []) ..
     | exact Adv.frame rfl rfl rfl rfl
     | (next heq => have hm := congrArg Prod.fst heq; simp only at hm; rw [← hm]; exact acceptPeer_adv (s, []) ..)
-    | (next heq => exact Adv.of_eq rfl rfl (Or.inl rfl) (Or.inr heq.symm))
-    | exact Adv.of_eq (by simp) (by simp) (Or.inl (by simp)) (by simpa using stop_persisted s false)
+    | (next heq => exact Adv.of_eq rfl rfl (Or.inl rfl) (Or.inr (Or.inl heq.symm)))
+    | exact (stop_adv s false).trans (Adv.frame rfl rfl rfl rfl)
     | (refine ((?_ : Adv s { s with persisted := none }).trans
           (handleVerifyCommand_adv ({ s with persisted := none }, []))).trans ?_
        · exact ⟨rfl, fun _ h => h, fun _ h => Or.inl h, fun _ h => by simp at h⟩
-       · exact Adv.frame (by simp) (by simp) (by simp) (by simp))
+       · apply Adv.frame <;> simp)
 
 theorem deliverParked_sound (m : M) (p : Parked) (h : Sound m.1) : Sound (deliverParked m p).1.1 := by
   unfold deliverParked
